@@ -16,7 +16,7 @@ def warm():
     import sqlite3  # noqa: F401
 
 
-def run(prop, tier, level, rule, plan, required, n_override=None, extra_cases=None, assumptions=(), e1=None):
+def run(prop, tier, level, rule, plan, required, n_override=None, extra_cases=None, assumptions=(), e1=None, post=None, post_fn=None):
     """plan: list of (focus, n_quick, n_thorough, strategies|None, max_tasks)"""
     warm()
     rep = common.Report(prop, tier, level, rule)
@@ -46,6 +46,11 @@ def run(prop, tier, level, rule, plan, required, n_override=None, extra_cases=No
         r1 = common.parallel_map(procmon.eval_case, c1, timeout=300)
         rep.merge_pool(r1, c1)
         rep.assumptions.append("E1: real kernel and processes; task = probe blocked on a FIFO gate; the controller releases tasks only when Conductor's main thread is blocked in its self-pipe read and all started tasks have reached their gate")
+    if post:
+        from .. import procmon
+        pc = post(tier, n_override)
+        rp = common.parallel_map(post_fn or procmon.soak_case, pc, nproc=16, timeout=900)
+        rep.merge_pool(rp, pc)
     return rep, rep.finish(required_reach=required)
 
 
